@@ -8,6 +8,7 @@ import GT.Lemmas.FSAViews
 import GT.Lemmas.FSARec
 import GT.Lemmas.FSARename
 import GT.Lemmas.FSABuild2
+import GT.Properties.C09Parse
 
 set_option linter.unusedSectionVars false
 
